@@ -18,6 +18,7 @@
 (*   NeverHalf    at every moment a transaction phase is handled entirely by    *)
 (*                the old or entirely by the new configuration (never by an     *)
 (*                empty / partly built one)                                     *)
+(*   Complete     accepted update => the tree is exactly the one it asks for      *)
 (*   OneConfig    one transaction: request by new, response by old is a         *)
 (*                mixture (unless the update failed in between = roll-back)     *)
 (*                                                                             *)
@@ -47,9 +48,17 @@ Beh(Flows, d) == [f \in Flows |-> At(d, f)]
 
 IsOK(code) == code >= 200 /\ code <= 299
 
+\* the whole tree the update asks for; fixed = files that are no part of the pushed configuration (the gateway's built-in
+\* default metrics file): /apply_flows replaces everything else
+TargetFull(fixed, endpoint, disk, payload) ==
+    IF endpoint = "apply_flows"
+    THEN [q \in (DOMAIN payload) \cup ((DOMAIN disk) \cap fixed) |-> IF q \in DOMAIN payload THEN payload[q] ELSE disk[q]]
+    ELSE Target(endpoint, disk, payload)
+
 \* monitor state for one case
-PStart(Flows, c) ==
+PStartF(Flows, c, fixed) ==
     [st      |-> "idle",
+     want    |-> IF c.decodable /\ c.badb64 = {} THEN TargetFull(fixed, c.endpoint, c.disk, c.payload) ELSE c.disk,
      old     |-> Beh(Flows, c.disk),
      new     |-> IF c.decodable /\ c.badb64 = {}
                  THEN Beh(Flows, Target(c.endpoint, c.disk, c.payload))
@@ -60,6 +69,7 @@ PStart(Flows, c) ==
      sig     |-> FALSE,        \* the handler signalled failure
      exempt  |-> FALSE,        \* an injected failure hit the roll-back
      reqBy   |-> << >>]        \* txn -> "old" | "new" | "any"  for open transactions
+PStart(Flows, c) == PStartF(Flows, c, {})
 
 WhoServed(p, served) ==
     IF served = p.old /\ served = p.new THEN "any"
@@ -90,9 +100,12 @@ PAfterStatus(p, code) == [p EXCEPT !.sig = p.sig \/ ~IsOK(code),
 
 PAfterFault(p) == [p EXCEPT !.exempt = p.exempt \/ p.sig]
 
+\* Complete: an accepted update is applied completely - the tree is exactly the one the update asks for (for /apply_flows the
+\* payload's files and nothing else, whatever the names of the files that were there before)
 ReplyVerdict(p, code, disk, tree) ==
     IF ~IsOK(code) /\ ~p.exempt /\ ~(DiskEq(disk, p.disk0) /\ tree = p.tree0)
-    THEN "DiskAtomic" ELSE ""
+    THEN "DiskAtomic"
+    ELSE IF IsOK(code) /\ ~p.exempt /\ ~DiskEq(disk, p.want) THEN "Complete" ELSE ""
 
 PAfterReply(p, code) == [p EXCEPT !.st = IF IsOK(code) THEN "ok" ELSE "failed"]
 =============================================================================
